@@ -867,7 +867,9 @@ def subst_fields(s, env):
     k = s[0]
     if k == "field" and len(s[1]) == 2 and s[1][0] == "this":
         v = env.get(s[1])
-        if v is None or symx.has_unknown(v):
+        if v is None:
+            return ("unk", "field-%s-not-fixed-by-constructor" % s[1][1])
+        if symx.has_unknown(v) and not all(str(a[1]).startswith("afterloop") for a in symx.atoms(v) if a[0] == "unk"):
             return ("unk", "field-%s-not-fixed-by-constructor" % s[1][1])
         return v
     if k == "op":
@@ -929,10 +931,18 @@ def r_extent(db, rep):
                     ew = subst_fields(it.size, cb.env)
                     at = c.types[node["alloct"]]
                     ea = mk_op("*", ext, C(max(at["bits"] // 8, 1)))
-                    if symx.has_unknown(ew) or symx.has_unknown(ea) or any(
-                            a[0] in ("local",) for a in symx.atoms(ew) | symx.atoms(ea)):
+                    if canon(ea) == canon(ew):
+                        continue
+                    ua = {a for a in symx.atoms(ea) if a[0] == "unk"}
+                    uw = {a for a in symx.atoms(ew) if a[0] == "unk"}
+                    stable = all(str(a[1]).startswith("afterloop") for a in ua | uw)
+                    if (ua or uw) and not (stable and ua == uw):
                         undecided += 1
                         continue
+                    if any(a[0] in ("local",) for a in symx.atoms(ew) | symx.atoms(ea)):
+                        undecided += 1
+                        continue
+                    # values computed by a loop before the allocation (e.g. a bit total) are the same symbol on both sides
                     wit = symx.differ_witness(ea, ew)
                     if wit is not None:
                         rep.viol("%s::%s#%s" % (w.rec, p[1], "ctor%d" % len(c.params)), c.nloc(node),
